@@ -76,7 +76,7 @@ def leaf_parsable_classes():
     from cryptoparser.common.parse import ParsableBaseNoABC  # pylint: disable=import-outside-toplevel
     from cryptoparser.common.utils import get_leaf_classes  # pylint: disable=import-outside-toplevel
     classes = [cls for cls in get_leaf_classes(ParsableBaseNoABC) if cls.__module__.startswith('cryptoparser.')]
-    return sorted(classes, key=class_name)
+    return sorted(set(classes), key=class_name)
 
 
 def accepted_seeds(cls):
